@@ -56,10 +56,13 @@ defvjp(inv, grad_inv)
 
 def grad_pinv(ans, x):
     # https://mathoverflow.net/questions/25778/analytical-formula-for-numerical-derivative-of-the-matrix-pseudo-inverse
+    # the last two terms come from the conjugate transpose of the differential:
+    # for complex input they take conjugates (which are no-ops for real input)
+    H = lambda a: anp.conj(T(a))
     return lambda g: T(
         -_dot(_dot(ans, T(g)), ans)
-        + _dot(_dot(_dot(ans, T(ans)), g), anp.eye(x.shape[-2]) - _dot(x, ans))
-        + _dot(_dot(_dot(anp.eye(ans.shape[-2]) - _dot(ans, x), g), T(ans)), ans)
+        + _dot(_dot(_dot(ans, H(ans)), anp.conj(g)), anp.eye(x.shape[-2]) - _dot(x, ans))
+        + _dot(_dot(_dot(anp.eye(ans.shape[-2]) - _dot(ans, x), anp.conj(g)), H(ans)), ans)
     )
 
 
